@@ -1,1 +1,2 @@
-import MammothModel
+import Properties.C04
+import Properties.C14
